@@ -37,5 +37,17 @@ wrote a different message. -/
 theorem serverbase_dispose_cases_src : serverbase_dispose_cases = "*tcpResponseWriter,*udpResponseWriter | default" := by decide
 theorem mainmw_dispose_cond_src : mainmw_dispose_cond =
     "err != nil | err != nil | fctx.isDebug | err != nil | fctx.filteredResponse != fctx.originalResponse" := by decide
+/-- The slices of a clone are the pooled struct's own arrays re-sliced to length 0 (or nil, or a fresh empty
+slice) and never the original's: the model clones an array object into storage of the pool or into fresh
+cells (`cloneObj`), which is what `Inv.liveSep` — on capacities — and `no_cap_alias` rest on. -/
+theorem clone_answer_args_src : clone_answer_args = "clone.Answer[:0], msg.Answer" := by decide
+theorem clone_ns_args_src : clone_ns_args = "clone.Ns[:0], msg.Ns" := by decide
+theorem clone_extra_args_src : clone_extra_args = "clone.Extra[:0], msg.Extra" := by decide
+theorem append_answer_returns_src : append_answer_returns = "nil, true | clones, full" := by decide
+theorem append_ns_returns_src : append_ns_returns = append_answer_returns := by decide
+theorem append_extra_returns_src : append_extra_returns = append_answer_returns := by decide
+theorem append_if_not_nil_returns_src : append_if_not_nil_returns = "nil | []T{} | append(clones, original...)" := by decide
+theorem opt_clone_option_rhs_src : opt_clone_option_rhs = "clone.Option[:0]" := by decide
+theorem https_clone_value_rhs_src : https_clone_value_rhs = "clone.Value[:0]" := by decide
 
 end Agd.Tie.C07
